@@ -141,8 +141,15 @@ def main(argv=None) -> int:
         print(f"[{prop}] {len(herr)} harness error(s); no verdict")
         return 2
     if twin is not None and twin["digest"] != results[0]["digest"]:
-        print(f"HARNESS-ERROR nondeterminism: unit 0 digests differ {twin['digest']} != {results[0]['digest']}")
-        return 2
+        # two runs of the same unit differ. If both runs report the same non-empty set of violations
+        # the system under test itself is nondeterministic (that can be the very property violated,
+        # e.g. C10); only a difference WITHOUT a verdict is a harness problem.
+        sa = sorted({f"{v['check']}:{v['sig']}" for v in twin.get("violations", [])})
+        sb = sorted({f"{v['check']}:{v['sig']}" for v in results[0].get("violations", [])})
+        if not sa or sa != sb:
+            print(f"HARNESS-ERROR nondeterminism: unit 0 digests differ {twin['digest']} != {results[0]['digest']}")
+            return 2
+        print(f"note: unit 0 is not reproducible across processes, but both runs report the same violations {sa[:3]}")
 
     violations = [v for r in results for v in r["violations"]]
     if hasattr(mod, "finalize"):
